@@ -4,6 +4,7 @@ import (
 	"encoding/json"
 	"fmt"
 	"reflect"
+	"sort"
 	"strings"
 
 	"github.com/dave/dst"
@@ -161,10 +162,16 @@ func c06Check(cs c06Case) core.Outcome {
 	so, sc := map[uintptr]string{}, map[uintptr]string{}
 	storage(reflect.ValueOf(n), tn, so)
 	storage(reflect.ValueOf(c), tn, sc)
+	var shared []string
 	for addr, p := range sc {
 		if q, ok := so[addr]; ok {
-			return fail("clone-shares-storage:"+fieldKey(p), "Clone(%s) shares storage with the original: copy %s aliases original %s", tn, p, q)
+			shared = append(shared, p+" aliases original "+q)
 		}
+	}
+	if len(shared) > 0 {
+		sort.Strings(shared)
+		p := strings.SplitN(shared[0], " ", 2)[0]
+		return fail("clone-shares-storage:"+fieldKey(p), "Clone(%s) shares storage with the original: copy %s", tn, shared[0])
 	}
 	// (3) mutation independence, both directions, on every decoration list and scalar
 	for dir := 0; dir < 2; dir++ {
